@@ -276,12 +276,15 @@ Definition unix_entry (own : bytes -> list (option Z * Z)) (u : usock) : list en
 
 Definition on (b : bool) {A} (l : list A) : list A := if b then l else [].
 
+(* [own_i] / [own_u]: admissible owners of a TCP/UDP socket / holders of a UNIX socket *)
+Definition spec_entries2 (own_i own_u : bytes -> list (option Z * Z)) (kind : bytes) (st : kstate) : list entry :=
+  on (spec_admits kind 2 1) (flat_map (inet_entry own_i 2 1) (k_tcp4 st))
+  ++ on (spec_admits kind 10 1) (flat_map (inet_entry own_i 10 1) (opt_list (k_tcp6 st)))
+  ++ on (spec_admits kind 2 2) (flat_map (inet_entry own_i 2 2) (k_udp4 st))
+  ++ on (spec_admits kind 10 2) (flat_map (inet_entry own_i 10 2) (opt_list (k_udp6 st)))
+  ++ flat_map (fun u => on (spec_admits kind 1 (utype_num (u_type u))) (unix_entry own_u u)) (k_unix st).
 Definition spec_entries (own : bytes -> list (option Z * Z)) (kind : bytes) (st : kstate) : list entry :=
-  on (spec_admits kind 2 1) (flat_map (inet_entry own 2 1) (k_tcp4 st))
-  ++ on (spec_admits kind 10 1) (flat_map (inet_entry own 10 1) (opt_list (k_tcp6 st)))
-  ++ on (spec_admits kind 2 2) (flat_map (inet_entry own 2 2) (k_udp4 st))
-  ++ on (spec_admits kind 10 2) (flat_map (inet_entry own 10 2) (opt_list (k_udp6 st)))
-  ++ flat_map (fun u => on (spec_admits kind 1 (utype_num (u_type u))) (unix_entry own u)) (k_unix st).
+  spec_entries2 own own kind st.
 
 (* system-wide: every socket; holder (pid, fd), or (None, -1) when no holder is visible *)
 Definition sys_owners (ps : list kproc) (ino : bytes) : list (option Z * Z) :=
@@ -295,6 +298,10 @@ Definition proc_owners (p : kproc) (ino : bytes) : list (option Z * Z) :=
 
 Definition spec_sys (kind : bytes) (st : kstate) : list entry :=
   spec_entries (sys_owners (k_procs st)) kind st.
+(* the sharper answer the current code gives: a TCP/UDP socket is reported with its FIRST holder in the
+   order the process and descriptor tables are scanned (not demanded by the property; stated as its own theorem) *)
+Definition spec_sys_first (kind : bytes) (st : kstate) : list entry :=
+  spec_entries2 (fun ino => firstn 1 (sys_owners (k_procs st) ino)) (sys_owners (k_procs st)) kind st.
 Definition spec_proc (p : kproc) (kind : bytes) (st : kstate) : list entry :=
   spec_entries (proc_owners p) kind st.
 
